@@ -129,7 +129,7 @@ func dfs(name string, procc *runtime.Script, sPath *searchPath, p *param) error 
 			if err := dfs(cName, cNg, sPath, p); err != nil {
 				verifEv("unwind", procc.Name, cName, expr, procc.CallRef, sPath.path, sPath.nodeMap, p.retMap)
 				if e, ok := err.(*errchain.PlError); ok {
-					return e.Copy().ChainAppend(procc.Name, p.namePos)
+					return e.Copy().ChainAppend(procc.Name, expr.NamePos)
 				}
 				return err
 			}
